@@ -46,7 +46,8 @@ TECHNIQUE = "Lean 4 proof: algebraic characterisation of pure list functions + f
 RULE = ("corpus; every document of <= 3 items (quick; 4 sampled in thorough) over 6 @string definitions (brace/quote/int/bare value, "
         "other-case key, key 'abc # abc') and entries with keys e1/e2 whose field value is one of: bare defined key, other case, "
         "undefined, {key}, \"key\", key # key, concatenations, number, a lone quote; run through the middleware alone (in place "
-        "and on a copy) and through parse_string with the default stack; random larger documents with several fields, duplicate "
+        "and on a copy) and through parse_string with the default stack (also after a caller changed the list they got from "
+        "default_parse_stack()); random larger documents with several fields, duplicate "
         "field keys, failed blocks, blank/newline padding; hand-built libraries with int values. Compared: all blocks with fields, "
         "values and parser_metadata, Library.strings, entries_dict keys. Non-trivial = at least one field was resolved.")
 EXHAUSTIVE = {"quick": False, "thorough": False}
